@@ -257,7 +257,7 @@ pub fn run_c29(ctx: &Ctx) -> i32 {
         }
     });
     rep.merge(r2);
-    for (k, need) in [("events/step", 100_000u64), ("events/call", 5_000), ("events/create", 500), ("events/log", 200), ("short_circuited_calls", 100)] {
+    for (k, need) in [("events/step", 100_000u64), ("events/call", 5_000), ("events/create", 500), ("events/log", 200), ("short_circuited_calls", 100), ("short_circuited_creates", 20)] {
         let have = rep.counter(k);
         rep.floor(k, have, need);
     }
